@@ -108,6 +108,23 @@ def indexWalkOf (t : ClassTable) (cls : String) : Outcome :=
   | "absent", _ | "raises", _ | _, "absent" | _, "raises" => .raises
   | _, _ => .silent
 
+/-- `probe in x` with a non-literal Nada probe: `__contains__` (its answer is coerced to a truth value), else `__iter__`,
+else the `__getitem__` sequence protocol — each member is then compared with the probe by `==`, which for a non-literal
+probe gives a Nada boolean whose truth value Python asks for — else TypeError. -/
+def containsOf (t : ClassTable) (cls : String) : Outcome :=
+  match slotBeh t cls "__contains__" "same" with
+  | "raises" => .raises
+  | "nada" | "notimpl" => nadaBoolTruth t
+  | "absent" | "missing" =>
+    (match slotBeh t cls "__iter__" "" with
+     | "raises" => .raises
+     | "absent" =>
+       (match slotBeh t cls "__getitem__" "same" with
+        | "absent" | "raises" | "missing" => .raises
+        | _ => nadaBoolTruth t)
+     | _ => nadaBoolTruth t)
+  | _ => .silent
+
 /-- use as a dict key / set element -/
 def hashOf (t : ClassTable) (cls : String) : Outcome :=
   match slotBeh t cls "__hash__" "" with
